@@ -25,6 +25,10 @@ namespace Panqec.Color
 def pyRangeStep (a : Nat) (b : Int) (step : Nat) : List Int :=
   (List.range' a (((b - (a : Int)).toNat + step - 1) / step) step).map Int.ofNat
 
+/-- Python `range(a, b, step)` for an integer start, an integer stop and a positive step -/
+def pyRangeI (a b : Int) (step : Nat) : List Int :=
+  (List.range (((b - a).toNat + step - 1) / step)).map fun (i : Nat) => a + (step : Int) * (i : Int)
+
 /-- `if coord not in coordinates: coordinates.append(coord)` for every `coord` of `ks` -/
 def appendNew (acc ks : List Coord) : List Coord :=
   ks.foldl (fun acc q => if acc.contains q then acc else acc ++ [q]) acc
@@ -42,6 +46,7 @@ def both (faces : List Coord) : List Coord :=
 inductive DeformResult where
   | map (m : PauliMap)
   | valueError
+  | keyError
   | returnsNotImplementedError
   deriving DecidableEq, Repr
 
